@@ -126,7 +126,34 @@ impl Part for EncodeSide {
                     return Ok(());
                 }
             }
-            let p = build::text_packet(variant, path, &c.text, 1).ok_or_else(|| Fail::new("harness:builder", variant))?;
+            let mut p = build::text_packet(variant, path, &c.text, 1).ok_or_else(|| Fail::new("harness:builder", variant))?;
+            // the other fields of the packet are not always at their defaults (derived from the text, so that the case stays a
+            // function of its inputs): whatever they hold, the text field's bytes are the same
+            let h = c.text.bytes().fold(c.text.len() as u32, |a, b| a.wrapping_mul(31).wrapping_add(b as u32));
+            if h % 2 == 1 {
+                match &mut p {
+                    insim::Packet::Btn(b) => {
+                        b.typein = (h >> 1) as u8;
+                        b.l = (h >> 17) as u8 % 201;
+                    },
+                    insim::Packet::Mtc(m) => {
+                        m.ucid = insim::identifiers::ConnectionId((h >> 1) as u8);
+                        m.plid = insim::identifiers::PlayerId((h >> 9) as u8);
+                    },
+                    insim::Packet::Mso(m) => {
+                        m.ucid = insim::identifiers::ConnectionId((h >> 1) as u8);
+                    },
+                    insim::Packet::Iii(m) => {
+                        m.ucid = insim::identifiers::ConnectionId((h >> 1) as u8);
+                        m.plid = insim::identifiers::PlayerId((h >> 9) as u8);
+                    },
+                    insim::Packet::Acr(m) => {
+                        m.ucid = insim::identifiers::ConnectionId((h >> 1) as u8);
+                        m.admin = h & 2 == 2;
+                    },
+                    _ => {},
+                }
+            }
             let frame = match encode_one(&p, &mode) {
                 Ok(f) => f,
                 Err(e) => {
@@ -560,7 +587,13 @@ pub fn run(run: &mut Run) {
         };
         // lengths concentrate around 0..2N characters
         let keep = cut.index(2 * n + 1).min(v.len());
-        let text: String = v.into_iter().take(keep).collect();
+        let mut text: String = v.into_iter().take(keep).collect();
+        // one text in eight has the "\0caption\0text" shape of type-in buttons (a leading NUL, a second one somewhere)
+        if keep % 8 == 3 {
+            let mid = text.char_indices().nth(keep / 3).map(|(i, _)| i).unwrap_or(text.len());
+            text.insert(mid, '\0');
+            text.insert(0, '\0');
+        }
         EncCase { field, compressed, text }
     });
     let n = run.budget(150_000, 8_000_000);
